@@ -1001,3 +1001,66 @@ func (c *Ctx) trueImpliesValidRune(fn *ssa.Function, param *ssa.Parameter) bool 
 	}
 	return found
 }
+
+// ---------------------------------------------------------------------------
+// R-APPEND-SHORTCUT (C16; added after seeds C16g and C02g): append/3 "yields each tuple of the relation that
+// matches the instantiated arguments". Its Go implementation answers deterministically, without the two-clause
+// definition, only when the first argument is a proper list - which it knows after a ListIterator has walked it
+// and reported no error. Every answer computed in the predicate function itself (a call of Unify there) lies
+// under the fact that the iterator's Err() is nil; everything else goes through the relational definition.
+// A shortcut taken before the walk answers append([a|T], [], Z) once with Z = [a|T], and append([a|b], [], Z)
+// at all.
+func ruleAppendShortcut(c *Ctx, r *Report) {
+	const rule = "R-APPEND-SHORTCUT"
+	desc := "append/3 answers without its relational definition only for a first argument that was walked as a proper list"
+	fn := c.registeredFn("append", 3)
+	unify := c.fn("Unify")
+	if fn == nil || unify == nil {
+		r.undecided(rule, "anchor:append/3", "-", desc, "append/3 or Unify not found")
+		return
+	}
+	n := 0
+	eachInstr(fn, func(in ssa.Instruction) {
+		call, ok := in.(*ssa.Call)
+		if !ok || call.Call.StaticCallee() != unify {
+			return
+		}
+		n++
+		key := fmt.Sprintf("%s/direct-answer#%d", fname(fn), n)
+		walked := false
+		for f := range c.factsAt(in.Block()) {
+			// a value of one of the closed list representations is a proper list by construction
+			if e, isE := f.cond.(*ssa.Extract); isE && e.Index == 1 && f.pol {
+				if ta, isTA := e.Tuple.(*ssa.TypeAssert); isTA && (isEngNamed(ta.AssertedType, "list") || isEngNamed(ta.AssertedType, "charList") || isEngNamed(ta.AssertedType, "codeList")) {
+					if _, isPtr := ta.AssertedType.(*types.Pointer); !isPtr {
+						walked = true
+					}
+				}
+			}
+			x, op, ok := nilCmp(f.cond)
+			if !ok || (op == token.EQL) != f.pol {
+				continue
+			}
+			if e, isE := x.(*ssa.Extract); isE {
+				x = e.Tuple
+			}
+			ec, isCall := x.(*ssa.Call)
+			if !isCall {
+				continue
+			}
+			callee := ec.Call.StaticCallee()
+			if callee != nil && callee.Name() == "Err" && callee.Signature.Recv() != nil && isEngNamed(callee.Signature.Recv().Type(), "ListIterator") {
+				walked = true
+			}
+		}
+		if walked {
+			r.ok(rule, key, c.at(in), desc, "under the fact ListIterator.Err() == nil", true)
+		} else {
+			r.bad(rule, key, c.at(in), desc, "this answer is computed where no list iterator is known to have finished without error: a partial list or a non-list first argument is answered as if it were a proper list (solutions are lost, or a non-list is accepted)")
+		}
+	})
+	if n == 0 {
+		r.info(rule, fname(fn)+"/direct-answer", c.Pos(fn.Pos()), desc, "the predicate function computes no answer itself")
+	}
+	r.analysed(rule, fname(fn))
+}
